@@ -116,8 +116,14 @@ def policy_matrix(tier):
     # are picked from a pool so that rows that return EARLY (other nodes still affordable) sit next to rows that go on
     out.append(_e("AM(depot-keen)", "op", lambda: AttentionModelPolicy(env_name="op", **kw), gpx={"max_length": 4.0}, quick=True,
                   prep=depot_keen, pool=32))
+    # non-default normalisation of the encoder layers ("batch" uses running statistics in eval mode, "instance" is POMO's):
+    # "layer" normalises over nodes x features of ONE instance
+    out.append(_e("AM(layer-norm)", "tsp", lambda: AttentionModelPolicy(env_name="tsp", normalization="layer", **kw), quick=True,
+                  best_of="multistart"))
+    out.append(_e("AM(layer-norm)", "cvrp", lambda: AttentionModelPolicy(env_name="cvrp", normalization="layer", **kw)))
     try:
         from rl4co.models.zoo import HeterogeneousAttentionModelPolicy
+        out.append(_e("HAM(layer-norm)", "pdp", lambda: HeterogeneousAttentionModelPolicy(env_name="pdp", normalization="layer", **kw)))
         out.append(_e("HAM", "pdp", lambda: HeterogeneousAttentionModelPolicy(env_name="pdp", **kw), quick=True))
     except Exception:
         pass
